@@ -133,4 +133,55 @@ class TrajArm(Arm):
                 "nodes": spec["nodes"], "edges": [[e["s"], e["t"], e["w"]] for e in spec["edges"]], "cfg": case["cfg"]}
 
 
-ARMS = [TrajArm()]
+class IndexedEdgesArm(TrajArm):
+    """structured shapes of the index-based edge path: 3-12 structurally identical nodes, one (source variable, target
+    variable) pair, edges with pairwise distinct targets (rings, shifts, partial permutations) listed in drawn order with
+    heterogeneous weights; matrix_sparseness chosen so that the indexed realisation is used"""
+    name = "indexed_edges"
+    budget = {"quick": 300, "thorough": 4000}
+    min_per_shard = 10
+    required_labels = ("ring", "partial_permutation", "sparseness=1", "merged>=4")
+
+    def strategy(self, ctx):
+        @st.composite
+        def case(draw):
+            base = draw(gen.model_spec({"leak": True, "max_types": 1, "max_ops": 2, "max_nodes": 1, "min_nodes": 1, "max_edges": 0,
+                                        "depths": [0], "expr_depth": 2, "max_state": 2, "max_alg": 1, "max_in": 2,
+                                        "overrides": False, "collision": False}))
+            n = draw(st.integers(3, 12))
+            nt = base["nodes"][0][1]
+            base["nodes"] = [[f"p{i}", nt] for i in range(n)]
+            spec = gen.uniquify_init(base)
+            rm = RefModel(spec)
+            tg = sorted(k[len("p0/"):] for k, kd in rm.kind.items() if kd == "input" and k.startswith("p0/"))
+            sr = sorted(k[len("p0/"):] for k in rm.state_paths if k.startswith("p0/"))
+            if not tg or not sr:
+                return {"spec": spec, "cfg": {"vectorize": True, "dt": 0.01, "steps": 12, "matrix_sparseness": 1.0}, "shape": "none"}
+            tv, sv = draw(st.sampled_from(tg)), draw(st.sampled_from(sr))
+            shape = draw(st.sampled_from(["ring", "ring", "partial_permutation", "permutation"]))
+            if shape == "ring":
+                shift = draw(st.integers(1, n - 1))
+                pairs = [(i, (i + shift) % n) for i in range(n)]
+            else:
+                targets = draw(st.permutations(list(range(n))))
+                m = n if shape == "permutation" else draw(st.integers(2, n))
+                sources = [draw(st.integers(0, n - 1)) for _ in range(m)]
+                pairs = list(zip(sources, targets[:m]))
+            pairs = list(draw(st.permutations(pairs)))
+            spec["edges"] = [{"s": f"p{i}/{sv}", "t": f"p{j}/{tv}", "w": round(0.3 + 0.21 * k * (-1) ** k, 3), "d": None, "sp": None,
+                              "et": None, "scope": ""} for k, (i, j) in enumerate(pairs)]
+            cfg = {"vectorize": True, "dt": 0.01, "steps": draw(st.integers(10, 16)),
+                   "matrix_sparseness": draw(st.sampled_from([1.0, 1.0, 0.5, None]))}
+            return {"spec": spec, "cfg": cfg, "shape": shape}
+        from ..finding_predicates import repair_case
+        return case().map(lambda c: repair_case(c, ctx))
+
+    def run(self, case, ctx):
+        res = super().run(case, ctx)
+        if case.get("shape") == "none":
+            res.rejected = "node type without input or state variable"
+        res.labels = sorted(set(res.labels) | {case.get("shape", "?")})
+        return res
+
+
+ARMS = [TrajArm(), IndexedEdgesArm()]
